@@ -10,10 +10,12 @@ correspondence of `checks/c09.py` (verdict, error string, engine, stored specs o
 calls; every answer of random API call sequences).
 
 What is proved here, for ALL values of every field (NaN, infinities, denormals included) and ALL call sequences:
-`accepted → ranges`, `ranges → accepted`, the order in which errors are reported, the verdict for every recipe of the
-generated table, the clamps of the environment overrides, and that a recorded error is sticky.  Where the pinned code
-deviates from the property's wording the negation is proved with a witness (NaN fields, two negative rates, the
-split/split path of `soxr_process`, `soxr_set_error`) and the positive statement keeps the excluding hypothesis.
+`accepted → ranges` (no NaN gets through), `ranges → accepted`, the order in which errors are reported, the verdict for
+every recipe of the generated table, the clamps of the environment overrides, and that a recorded error is sticky on
+every path.  The deviations the pinned tree had (NaN fields, `io_spec.e` ignored, two negative rates, the split/split path
+of `soxr_process`, `soxr_engine` after a fatal error) have been repaired in `/repo` (findings F21, F24..F28) and the
+model moved with the code; `pre_repair_range_test_passes_nan` keeps the historical witness for the old range tests.
+`soxr_set_error` is still modelled as written (`set_error_as_written`).
 
 NOT proved (not provable on this model): `accepted → the planner's plan is well-formed` (floating-point planner); the
 check decides `PipeWF` on the exported plan of sampled accepted configurations and runs them under sanitizers instead.
@@ -23,41 +25,46 @@ open Soxr.Config Soxr.Config.Dbl
 
 /-! ## accepted → ranges -/
 
-/-- **Accepted ⇒ every validated quantity is inside its range** (engine validation, constant-rate engines).
-    `NaN` is the one exception the code leaves open: every test is of the form `x < lo || x > hi`. -/
+/-- **Accepted ⇒ every validated quantity is inside its range** (engine validation, constant-rate engines). -/
 theorem accepted_ranges (r : Dbl) (q : QSpec) (h : engineValidate r q = none) :
-    (eq q.precision zero = true ∨ q.precision.isNaN = true ∨ (le c15 q.precision = true ∧ le q.precision c33 = true)) ∧
-    (q.phase.isNaN = true ∨ (le zero q.phase = true ∧ le q.phase c100 = true)) ∧
-    ((tbw0 q).isNaN = true ∨ (le tbwLo (tbw0 q) = true ∧ le (tbw0 q) tbwHi = true)) ∧
-    (q.pb.isNaN = true ∨ le pbLo q.pb = true) ∧
-    (q.sb.isNaN = true ∨ le q.sb sbHi = true) ∧
-    gt r zero = true ∧ lt r c2p31 = true := by
+    (eq q.precision zero = true ∨ (le c15 q.precision = true ∧ le q.precision c33 = true)) ∧
+    (le zero q.phase = true ∧ le q.phase c100 = true) ∧
+    (le tbwLo (tbw0 q) = true ∧ le (tbw0 q) tbwHi = true) ∧
+    le pbLo q.pb = true ∧ le q.sb sbHi = true ∧
+    gt r zero = true ∧ lt r cFactorMax = true := by
   obtain ⟨_, h2, h3, h4, h5, h6, h7⟩ := (engineValidate_none_iff r q).1 h
+  have hb := range_of_test_false pbLo sbHi q.pb
   refine ⟨?_, ?_, ?_, ?_, ?_, ?_, ?_⟩
   · unfold precisionTest at h4
     cases hz : eq q.precision zero
     · right
-      have : (gt c15 q.precision || gt q.precision c33) = false := by simpa [ne, hz] using h4
-      rcases range_of_test_false c15 c33 q.precision (by decide +kernel) (by decide +kernel) this with h | h
-      · exact Or.inl h
-      · exact Or.inr h
+      exact range_of_test_false c15 c33 q.precision (by simpa [ne, hz] using h4)
     · exact Or.inl rfl
-  · exact range_of_test_false zero c100 q.phase (by decide +kernel) (by decide +kernel) (by simpa [phaseTest] using h7)
-  · exact range_of_test_false tbwLo tbwHi (tbw0 q) (by decide +kernel) (by decide +kernel) (by simpa [tbwTest] using h2)
+  · exact range_of_test_false zero c100 q.phase (by simpa [phaseTest] using h7)
+  · exact range_of_test_false tbwLo tbwHi (tbw0 q) (by simpa [tbwTest] using h2)
   · unfold bandTest at h3
-    cases hx : q.pb.isNaN
-    · right
-      simp only [Bool.or_eq_false_iff, gt] at h3
-      exact le_of_lt_false pbLo q.pb (by decide +kernel) hx h3.1
-    · exact Or.inl rfl
+    cases h1 : le pbLo q.pb
+    · simp [h1] at h3
+    · rfl
   · unfold bandTest at h3
-    cases hx : q.sb.isNaN
-    · right
-      simp only [Bool.or_eq_false_iff, gt] at h3
-      exact le_of_lt_false q.sb sbHi hx (by decide +kernel) h3.2
-    · exact Or.inl rfl
+    cases h1 : le q.sb sbHi
+    · simp [h1] at h3
+    · rfl
   · simpa [notPositiveTest] using h5
   · simpa [tooLargeTest] using h6
+
+/-- **No NaN gets through**: none of the four double fields of an accepted quality spec is NaN. -/
+theorem accepted_fields_not_nan (r : Dbl) (q : QSpec) (h : engineValidate r q = none) :
+    q.precision.isNaN = false ∧ q.phase.isNaN = false ∧ q.pb.isNaN = false ∧ q.sb.isNaN = false := by
+  obtain ⟨h1, h2, _, h4, h5, _, _⟩ := accepted_ranges r q h
+  refine ⟨?_, not_nan_of_le_right _ _ h2.1, not_nan_of_le_right _ _ h4, not_nan_of_le_left _ _ h5⟩
+  rcases h1 with h1 | h1
+  · generalize q.precision = p at h1
+    cases p with
+    | nan => simp [eq] at h1
+    | inf s => rfl
+    | fin s m e => rfl
+  · exact not_nan_of_le_right _ _ h1.1
 
 /-- **Inside every range ⇒ accepted** (the converse; `imagingTest` is the one cross-field condition). -/
 theorem ranges_accepted (r : Dbl) (q : QSpec) (himg : imagingTest r q = false)
@@ -65,17 +72,15 @@ theorem ranges_accepted (r : Dbl) (q : QSpec) (himg : imagingTest r q = false)
     (hph : le zero q.phase = true ∧ le q.phase c100 = true)
     (htbw : le tbwLo (tbw0 q) = true ∧ le (tbw0 q) tbwHi = true)
     (hpb : le pbLo q.pb = true) (hsb : le q.sb sbHi = true)
-    (hr0 : gt r zero = true) (hr1 : lt r c2p31 = true) : engineValidate r q = none := by
+    (hr0 : gt r zero = true) (hr1 : lt r cFactorMax = true) : engineValidate r q = none := by
   rw [engineValidate_none_iff]
   refine ⟨himg, ?_, ?_, ?_, ?_, ?_, ?_⟩
   · exact test_false_of_range _ _ _ htbw.1 htbw.2
-  · unfold bandTest
-    simp only [Bool.or_eq_false_iff, gt]
-    exact ⟨lt_false_of_le _ _ hpb, lt_false_of_le _ _ hsb⟩
+  · simp [bandTest, hpb, hsb]
   · unfold precisionTest
     rcases hp with h | h
     · simp [ne, h]
-    · rw [test_false_of_range _ _ _ h.1 h.2]; simp
+    · simp [h.1, h.2]
   · simp [notPositiveTest, hr0]
   · simp [tooLargeTest, hr1]
   · exact test_false_of_range _ _ _ hph.1 hph.2
@@ -87,13 +92,16 @@ example : engineValidate (div (ofNat 44100) (ofNat 48000)) hq = none := by decid
 example : engineValidate (ofNat 2) { hq with precision := ofNat 14 } = some .precision := by decide +kernel
 example : engineValidate (ofNat 2) { hq with phase := ofNat 101 } = some .phase := by decide +kernel
 
-/-- **Negation (pinned code): NaN passes every range test.**  A NaN precision, phase or band edge is accepted
-    (known finding F26; replayed on the real code by the check). -/
-theorem nan_fields_accepted :
-    engineValidate (ofNat 2) { hq with precision := .nan } = none ∧
-    engineValidate (ofNat 2) { hq with phase := .nan } = none ∧
-    engineValidate (ofNat 2) { hq with pb := .nan } = none ∧
-    engineValidate (ofNat 2) { hq with sb := .nan } = none := by decide +kernel
+/-- a NaN in any of the four fields is rejected, each with the message of the first test it fails -/
+example : engineValidate (ofNat 2) { hq with precision := .nan } = some .precision ∧
+    engineValidate (ofNat 2) { hq with phase := .nan } = some .phase ∧
+    engineValidate (ofNat 2) { hq with pb := .nan } = some .transitionBandwidth ∧
+    engineValidate (ofNat 2) { hq with sb := .nan } = some .transitionBandwidth := by decide +kernel
+
+/-- **Historical witness (finding F26, repaired):** the expression the range tests had before — `lo > x || x > hi` —
+    lets every NaN through, whatever the bounds. -/
+theorem pre_repair_range_test_passes_nan (lo hi : Dbl) : preRepairRangeTest lo hi .nan = false := by
+  cases lo <;> cases hi <;> rfl
 
 /-- error precedence inside `_soxr_init`: each message is returned exactly when its test is the first that fires -/
 theorem engine_error_precedence (r : Dbl) (q : QSpec) :
@@ -116,11 +124,13 @@ theorem engine_error_precedence (r : Dbl) (q : QSpec) :
 
 /-- **What an accepted `soxr_create` guarantees**: no constructor error, datatype codes below 8, the engine is the one
     `selectEngine` names, the stored specs are the rescaled quality spec and the overridden runtime spec; when the
-    resamplers were built the ratio is positive and — for the constant-rate engines — passed the engine validation. -/
+    resamplers were built the ratio is positive and passed the engine's validation (constant-rate engines: every range
+    test; variable-rate engine: ratio below 2^30). -/
 theorem create_accepted (c : Config) (a : Accepted) (h : validate c = .ok a) :
     qErr c = false ∧ ioErr c = false ∧ a.engine = selectEngine (effectiveQ c) c.env c.cpu ∧ a.q = effectiveQ c ∧
     a.rt = effectiveRt c ∧ a.ioRatio = ioRatioOf c.irate c.orate ∧
-    (a.ready = true → c.channels ≠ 0 ∧ gt a.ioRatio zero = true ∧ (a.engine ≠ .vr32 → engineValidate a.ioRatio a.q = none)) ∧
+    (a.ready = true → c.channels ≠ 0 ∧ gt a.ioRatio zero = true ∧ (a.engine ≠ .vr32 → engineValidate a.ioRatio a.q = none) ∧
+      (a.engine = .vr32 → lt a.ioRatio cVrFactorMax = true)) ∧
     (a.ready = false → c.channels = 0 ∨ eq a.ioRatio zero = true) := by
   unfold validate at h
   cases hq : qErr c
@@ -141,9 +151,14 @@ theorem create_accepted (c : Config) (a : Accepted) (h : validate c = .ok a) :
         injection h with h; subst h
         refine ⟨rfl, rfl, rfl, rfl, rfl, rfl, ?_, ?_⟩
         · intro _
-          refine ⟨hc.1, by simpa using hpos, ?_⟩
-          intro hne
-          simpa [engineCreate, hne] using hcr
+          refine ⟨hc.1, by simpa using hpos, ?_, ?_⟩
+          · intro hne
+            simpa [engineCreate, hne] using hcr
+          · intro hvr
+            have hvr' : selectEngine (effectiveQ c) c.env c.cpu = .vr32 := hvr
+            cases hl : lt (ioRatioOf c.irate c.orate) cVrFactorMax
+            · simp [engineCreate, hvr', hl] at hcr
+            · rfl
         · intro hf; cases hf
   · next hc =>
     injection h with h; subst h
@@ -158,11 +173,11 @@ theorem create_accepted (c : Config) (a : Accepted) (h : validate c = .ok a) :
 
 /-- **Accepted and built on a constant-rate engine ⇒ all ranges hold** (corollary of the two theorems above). -/
 theorem create_accepted_ranges (c : Config) (a : Accepted) (h : validate c = .ok a) (hr : a.ready = true) (he : a.engine ≠ .vr32) :
-    (eq a.q.precision zero = true ∨ a.q.precision.isNaN = true ∨ (le c15 a.q.precision = true ∧ le a.q.precision c33 = true)) ∧
-    (a.q.phase.isNaN = true ∨ (le zero a.q.phase = true ∧ le a.q.phase c100 = true)) ∧
-    gt a.ioRatio zero = true ∧ lt a.ioRatio c2p31 = true := by
+    (eq a.q.precision zero = true ∨ (le c15 a.q.precision = true ∧ le a.q.precision c33 = true)) ∧
+    (le zero a.q.phase = true ∧ le a.q.phase c100 = true) ∧
+    gt a.ioRatio zero = true ∧ lt a.ioRatio cFactorMax = true := by
   obtain ⟨_, _, _, _, _, _, h7, _⟩ := create_accepted c a h
-  obtain ⟨g1, g2, _, _, _, g6, g7⟩ := accepted_ranges _ _ ((h7 hr).2.2 he)
+  obtain ⟨g1, g2, _, _, _, g6, g7⟩ := accepted_ranges _ _ ((h7 hr).2.2.1 he)
   exact ⟨g1, g2, g6, g7⟩
 
 /-- **Order of the errors of `soxr_create`**: quality-spec error first, then datatypes, then the ratio test of
@@ -193,73 +208,78 @@ theorem bad_datatype_rejected (c : Config) (io : IoSpec) (hio : c.io = some io) 
     · exact Nat.le_trans h Nat.right_le_or
   simp [ioErr, hio, this]
 
-theorem good_datatype_passes (c : Config) (io : IoSpec) (hio : c.io = some io) (hi : io.itype < 8) (ho : io.otype < 8) :
-    ioErr c = false := by
+theorem good_datatype_passes (c : Config) (io : IoSpec) (hio : c.io = some io) (he : io.e = false) (hi : io.itype < 8)
+    (ho : io.otype < 8) : ioErr c = false := by
   have : io.itype ||| io.otype < 2 ^ 3 := Nat.or_lt_two_pow hi ho
-  simp [ioErr, hio]; omega
+  simp [ioErr, hio, he]; omega
 
-/-- **Negation (pinned code): the constructor's own error flag is ignored.**  `soxr_io_spec` marks invalid datatypes in
-    `.e` (and leaves both codes 0); `soxr_create` never looks at it (known finding F21). -/
-theorem io_constructor_error_ignored :
-    ∃ c a, (∃ io, c.io = some io ∧ io.e = true) ∧ validate c = .ok a ∧ a.ready = true := by
-  let c : Config :=
-    { irate := ofNat 1, orate := ofNat 2, channels := 1, q := none,
-      io := some { itype := 0, otype := 0, flags := 0, e := true }, rt := none, env := {}, cpu := ⟨true, true⟩ }
-  obtain ⟨a, h1, h2⟩ := (isReady_iff (validate c)).1 (by decide +kernel)
-  exact ⟨c, a, ⟨_, rfl, rfl⟩, h1, h2⟩
+/-- **The constructor's own error flag is honoured**: `soxr_io_spec` marks invalid datatypes in `.e` (and leaves both
+    codes 0); `soxr_create` rejects such a spec with the datatype message (finding F21, repaired). -/
+theorem io_constructor_error_rejected (c : Config) (io : IoSpec) (hio : c.io = some io) (hq : qErr c = false)
+    (he : io.e = true) : validate c = .error .invalidDatatype :=
+  (create_error_precedence c).2.1 hq (by simp [ioErr, hio, he])
 
 /-- **One rate given, the other zero ⇒ rejected** (when channels are given): the ratio is set to −1. -/
 theorem one_rate_zero_rejected (c : Config) (hq : qErr c = false) (hio : ioErr c = false) (hc : c.channels ≠ 0)
     (h : (ne c.irate zero = true ∧ ne c.orate zero = false) ∨ (ne c.irate zero = false ∧ ne c.orate zero = true)) :
     validate c = .error .ratioOutOfRange := by
   have hr : ioRatioOf c.irate c.orate = minusOne := by
-    rcases h with ⟨h1, h2⟩ | ⟨h1, h2⟩ <;> simp [ioRatioOf, h1, h2]
+    unfold ioRatioOf
+    split
+    · rfl
+    · rcases h with ⟨h1, h2⟩ | ⟨h1, h2⟩ <;> simp [h1, h2]
   refine (create_error_precedence c).2.2.1 hq hio hc ?_ ?_
   · rw [hr]; decide +kernel
   · rw [hr]; decide +kernel
+
+/-- **A negative rate ⇒ rejected**, whatever the other rate is (each rate, not only the quotient, must be positive;
+    finding F27, repaired). -/
+theorem negative_rate_rejected (c : Config) (hq : qErr c = false) (hio : ioErr c = false) (hc : c.channels ≠ 0)
+    (h : lt c.irate zero = true ∨ lt c.orate zero = true) : validate c = .error .ratioOutOfRange := by
+  have hr : ioRatioOf c.irate c.orate = minusOne := by
+    unfold ioRatioOf
+    rcases h with h | h <;> simp [h]
+  refine (create_error_precedence c).2.2.1 hq hio hc ?_ ?_
+  · rw [hr]; decide +kernel
+  · rw [hr]; decide +kernel
+
+/-- …and without channels nothing is built from it either: a negative rate never yields a built resampler. -/
+theorem negative_rate_never_ready (c : Config) (a : Accepted) (h : lt c.irate zero = true ∨ lt c.orate zero = true)
+    (hv : validate c = .ok a) : a.ready = false := by
+  obtain ⟨_, _, _, _, _, hr, h7, _⟩ := create_accepted c a hv
+  cases hrd : a.ready
+  · rfl
+  · exfalso
+    have hpos := (h7 hrd).2.1
+    have hm : ioRatioOf c.irate c.orate = minusOne := by
+      unfold ioRatioOf
+      rcases h with h | h <;> simp [h]
+    rw [hr, hm] at hpos
+    revert hpos; decide +kernel
+
+example : isReady (validate { irate := .fin true 44100 0, orate := .fin true 48000 0, channels := 1, q := none, io := none,
+                              rt := none, env := {}, cpu := ⟨true, true⟩ }) = false := by decide +kernel
 
 /-- **A NaN rate ⇒ rejected** (the quotient is NaN, which is not `> 0`). -/
 theorem nan_rate_rejected (c : Config) (hq : qErr c = false) (hio : ioErr c = false) (hc : c.channels ≠ 0)
     (h : c.irate = .nan ∨ c.orate = .nan) : validate c = .error .ratioOutOfRange := by
   have hnn : ne .nan zero = true := by decide
   have hr : ioRatioOf c.irate c.orate = .nan ∨ ioRatioOf c.irate c.orate = minusOne := by
-    rcases h with h | h
-    · rw [h]; unfold ioRatioOf; simp only [hnn, ↓reduceIte]
-      split
-      · exact Or.inl (div_nan_left _)
-      · exact Or.inr rfl
-    · rw [h]; unfold ioRatioOf; simp only [hnn, ↓reduceIte]
-      split
-      · exact Or.inl (div_nan_right _)
-      · exact Or.inr rfl
+    unfold ioRatioOf
+    split
+    · exact Or.inr rfl
+    · rcases h with h | h
+      · rw [h]; simp only [hnn, ↓reduceIte]
+        split
+        · exact Or.inl (div_nan_left _)
+        · exact Or.inr rfl
+      · rw [h]; simp only [hnn, ↓reduceIte]
+        split
+        · exact Or.inl (div_nan_right _)
+        · exact Or.inr rfl
   refine (create_error_precedence c).2.2.1 hq hio hc ?_ ?_
   · rcases hr with hr | hr <;> rw [hr] <;> decide +kernel
   · rcases hr with hr | hr <;> rw [hr] <;> decide +kernel
-
-/-- **Two finite rates of opposite sign never yield a built resampler**: the quotient is not `> 0`, so the call is
-    rejected — or, if the quotient underflows to −0, nothing is built yet. -/
-theorem opposite_sign_rates_never_ready (c : Config) (a : Accepted) (s t : Bool) (m n : Nat) (e f : Int)
-    (hi : c.irate = .fin s m e) (ho : c.orate = .fin t n f) (hst : s ≠ t) (h : validate c = .ok a) : a.ready = false := by
-  obtain ⟨_, _, _, _, _, hr, h7, _⟩ := create_accepted c a h
-  cases hrd : a.ready
-  · rfl
-  · exfalso
-    have hpos := (h7 hrd).2.1
-    rw [hr, hi, ho] at hpos
-    unfold ioRatioOf at hpos
-    split at hpos
-    · split at hpos
-      · rw [div_opposite_sign s t m n e f hst] at hpos; cases hpos
-      · revert hpos; decide +kernel
-    · split at hpos
-      · revert hpos; decide +kernel
-      · revert hpos; decide +kernel
-
-/-- **Negation (pinned code): two negative rates are accepted** — only the quotient is tested (known finding F27). -/
-theorem negative_rates_accepted :
-    ∃ a, validate { irate := .fin true 44100 0, orate := .fin true 48000 0, channels := 1, q := none, io := none,
-                    rt := none, env := {}, cpu := ⟨true, true⟩ } = .ok a ∧ a.ready = true :=
-  (isReady_iff _).1 (by decide +kernel)
 
 /-! ## every recipe of `soxr_quality_spec` -/
 
@@ -290,11 +310,12 @@ theorem recipe_table_passes : ∀ k < 128, (qualitySpec k 0).e = false → stati
   decide +kernel
 
 /-- **Every recipe is accepted**: for every recipe word and every flag word for which `soxr_quality_spec` reports no
-    error, every channel count ≥ 1, every valid io spec and every ratio in `(0, 2^31)`, `soxr_create` builds a
-    resampler. -/
+    error, every channel count ≥ 1, every valid io spec and every ratio in `(0, 2^31 - 1)` (`(0, 2^30)` when the flag word
+    asks for the variable-rate engine), `soxr_create` builds a resampler. -/
 theorem every_recipe_accepted (c : Config) (recipe flags : Nat) (hq : c.q = some (qualitySpec recipe flags))
     (he : (qualitySpec recipe flags).e = false) (hio : ioErr c = false) (hc : c.channels ≠ 0)
-    (hr0 : gt (ioRatioOf c.irate c.orate) zero = true) (hr1 : lt (ioRatioOf c.irate c.orate) c2p31 = true) :
+    (hr0 : gt (ioRatioOf c.irate c.orate) zero = true) (hr1 : lt (ioRatioOf c.irate c.orate) cFactorMax = true)
+    (hvr : hasFlag (qualitySpec recipe flags).flags Gen.flagVR = true → lt (ioRatioOf c.irate c.orate) cVrFactorMax = true) :
     ∃ a, validate c = .ok a ∧ a.ready = true := by
   obtain ⟨f1, f2, f3, f4, f5⟩ := qualitySpec_fields recipe flags
   have hst : staticTests (qualitySpec recipe flags) = false := by
@@ -310,7 +331,21 @@ theorem every_recipe_accepted (c : Config) (recipe flags : Nat) (hq : c.q = some
     simp [imagingTest, t5]
   have hne := ne_zero_of_gt_zero _ hr0
   have hcr : engineCreate (selectEngine (effectiveQ c) c.env c.cpu) (ioRatioOf c.irate c.orate) (effectiveQ c) = none := by
-    unfold engineCreate; split <;> simp [hev]
+    unfold engineCreate
+    split
+    · next hv =>
+      have hf : hasFlag (effectiveQ c).flags Gen.flagVR = true := by
+        cases hh : hasFlag (effectiveQ c).flags Gen.flagVR
+        · exfalso
+          unfold selectEngine at hv
+          simp only [hh, Bool.false_eq_true, if_false] at hv
+          repeat' split at hv
+          all_goals cases hv
+        · rfl
+      have : (effectiveQ c).flags = (qualitySpec recipe flags).flags := by rw [heff]; rfl
+      rw [this] at hf
+      simp [hvr hf]
+    · exact hev
   exact (isReady_iff _).1 (by simp [validate, hqe, hio, hc, hne, hr0, hcr, isReady])
 
 example : isReady (validate
@@ -381,24 +416,20 @@ def exErr : Api :=
     engine := .cr32s }
 
 /-- **Sticky error.**  Once `p->error` is set, for EVERY later call sequence that contains neither `soxr_clear` nor
-    `soxr_set_error`: the error is still recorded at the end, every `soxr_process` returns it with `odone = 0`, every
-    `soxr_output` and `soxr_delay` returns 0, `soxr_set_io_ratio` and `soxr_error` return it.  Hypothesis `bothSplit =
-    false`: see `sticky_error_split_counterexample`. -/
-theorem sticky_error_partial (s : Api) (e : ErrorKind) (ops : List Op) (h : s.error = some e) (hs : s.bothSplit = false)
-    (hq : ∀ op ∈ ops, op.quiet = true) :
+    `soxr_set_error` — on every path, whatever the layouts: the error is still recorded at the end, every `soxr_process`
+    returns it with `odone = 0`, every `soxr_output` and `soxr_delay` returns 0, `soxr_set_io_ratio` and `soxr_error`
+    return it. -/
+theorem sticky_error (s : Api) (e : ErrorKind) (ops : List Op) (h : s.error = some e) (hq : ∀ op ∈ ops, op.quiet = true) :
     (run s ops).1.error = some e ∧ Answers (stickyRet e) ops (run s ops).2 :=
-  run_sticky ops s e h hs hq
+  run_sticky ops s e h hq
 
 example : (run exErr [.process false false 10 .quiet, .output false 5 .quiet, .delay, .setIoRatio (ofNat 2), .error]).2 =
     [.frames .zero (some .nullOutput), .count .zero, .count .zero, .status (some .nullOutput), .status (some .nullOutput)] := by
   decide +kernel
 
-/-- **Negation (pinned code): on the split-input/split-output path `soxr_process` ignores the recorded error** — it
-    keeps delivering whatever the engine has while returning the error (known finding F25; replayed on the real code). -/
-theorem sticky_error_split_counterexample :
-    ∃ s e, s.error = some e ∧ s.bothSplit = true ∧
-      (step s (.process false false 100 .quiet)).2 = .frames .any (some e) := by
-  exact ⟨{ exErr with itype := 4, otype := 4 }, .nullOutput, rfl, by decide, by decide +kernel⟩
+/-- the split-input/split-output path too (finding F25, repaired: that branch of `soxr_process` used not to test `p->error`) -/
+example : (step { exErr with itype := 4, otype := 4 } (.process false false 100 .quiet)).2 = .frames .zero (some .nullOutput) := by
+  decide +kernel
 
 /-- **How errors get recorded**: a NULL output buffer with `olen > 0`, or a failing input function, on a healthy
     resampler records the error at once and (NULL buffer) delivers nothing. -/
